@@ -151,6 +151,11 @@ def _run(chk, quick, seed, pool):
                                  properties=[], constraints=canon),
                 "generate: all behaviours", workers=1, coverage=False, timeout=3000)
     gens += r.cases("CASE")
+    # values that compare equal across types given to the str-typed key in successive scopes (1, 1.0, True): one thread
+    r = chk.tlc("MC_Config", cfg(chk, "gen_num", Atomic=True, Record=True, MaxOps=4, KwLevel=3, Threads={"t1"}, Idents={"i1"},
+                                 EnvChoices=ENV_ONE, invariants=["OutcomesInContract", "QuiescentViewsMatch", "EmitCase"], properties=[]),
+                "generate: successive scopes with equal-comparing values of different types", workers=1, coverage=False, timeout=3000)
+    gens += [c for c in r.cases("CASE") if sum(1 for h in c["hist"] if h["op"] == "open") >= 2 and any(h["op"] == "read" and h["k"] == "S" for h in c["hist"])]
     n_exh = len(gens)
     nsim = 120 if quick else 2500
     r = chk.tlc("MC_Config", cfg(chk, "gen_sim", Atomic=True, Record=True, MaxOps=7, KwLevel=2, Threads={"t1", "t2", "t3"},
